@@ -29,6 +29,9 @@ pub fn battery(t: &Tree, order: &[usize]) -> Vec<(String, String)> {
     let root = t.get_root();
     let mut leaf_names: Vec<String> = t.get_leaf_names().into_iter().map(|n| n.unwrap_or_else(|| "<unnamed>".into())).collect();
     leaf_names.sort();
+    // two leaves with the same name (an internal node spelled like a leaf that became a tip): the order of their two rows in
+    // the fast matrix follows arena order, which is not a function of the tree — then only the outcome and the multiset of cells
+    let dup_leaves = leaf_names.windows(2).any(|w| w[0] == w[1]);
     let qs: Vec<(&str, Box<dyn Fn() -> String + '_>)> = vec![
         ("n_leaves", Box::new(|| t.n_leaves().to_string())),
         ("leaf_names", Box::new(|| leaf_names.join(","))),
@@ -74,14 +77,34 @@ pub fn battery(t: &Tree, order: &[usize]) -> Vec<(String, String)> {
         ("distance_matrix", Box::new(|| match guarded(std::panic::AssertUnwindSafe(|| t.distance_matrix())) {
             Err(_) => "panic".into(),
             Ok(Err(e)) => format!("err {}", err_kind(&e)),
-            Ok(Ok(m)) => format!("ok {:?} {:?}", m.taxa, m.iter().map(|v| v.to_bits()).collect::<Vec<_>>()),
+            Ok(Ok(m)) => {
+                let mut cells = m.iter().map(|v| v.to_bits()).collect::<Vec<_>>();
+                if dup_leaves {
+                    cells.sort();
+                }
+                format!("ok {:?} {:?}", m.taxa, cells)
+            }
         })),
         ("distance_matrix_recursive", Box::new(|| match guarded(std::panic::AssertUnwindSafe(|| t.distance_matrix_recursive())) {
             Err(_) => "panic".into(),
             Ok(Err(e)) => format!("err {}", err_kind(&e)),
             Ok(Ok(m)) => format!("ok {:?} {:?}", m.taxa, m.iter().map(|v| v.to_bits()).collect::<Vec<_>>()),
         })),
-        ("by_name", Box::new(|| leaf_names.iter().map(|n| t.get_by_name(n).map(|x| canon_of(x.id)).unwrap_or("-".into())).collect::<Vec<_>>().join(" ; "))),
+        ("by_name", Box::new(|| leaf_names.iter().map(|n| {
+            // a label carried by several nodes (e.g. two merge_children results given the same name) makes get_by_name
+            // return "the first in arena order", which is not a function of the tree: then only "the answer is one of
+            // the carriers" and the multiset of carriers are compared
+            let carriers: Vec<usize> = t.search_nodes(|x| x.name.as_deref() == Some(n.as_str()));
+            let got = t.get_by_name(n).map(|x| canon_of(x.id));
+            if carriers.len() <= 1 {
+                got.unwrap_or("-".into())
+            } else {
+                let mut v: Vec<String> = carriers.iter().map(|i| canon_of(*i)).collect();
+                v.sort();
+                let ok = got.as_ref().map_or(false, |g| v.contains(g));
+                format!("ambiguous-label[{}]{}", v.join(" | "), if ok { "" } else { " ANSWER-IS-NOT-A-CARRIER" })
+            }
+        }).collect::<Vec<_>>().join(" ; "))),
         ("search_all", Box::new(|| { let mut v: Vec<String> = t.search_nodes(|_| true).iter().map(|i| canon_of(*i)).collect(); v.sort(); format!("{} {}", v.len(), v.join(" ; ")) })),
         ("search_unnamed", Box::new(|| { let mut v: Vec<String> = t.search_nodes(|n| n.name.is_none()).iter().map(|i| canon_of(*i)).collect(); v.sort(); v.join(" ; ") })),
         ("newick", Box::new(|| r2s(t.to_newick()))),
